@@ -322,7 +322,7 @@ def name_rejection(case, r, run, v):
         return [("%s %s | %s" % (fam, s.lower(), kind), "%s: %r" % (where, r.get("harness")))]
     if s == "Fail":
         f = r["failures"][0]
-        key = "%s %s %s | %s" % (fam, f["cls"], f["frame"], kind)
+        key = "%s %s %s" % (fam, f["cls"], f["frame"])
         what = "%s: the normal rendering pass fails with %s in %s: %s" % (where, f["cls"], f["frame"], f["msg"][:160])
         e = r["exc"]
         if e:
@@ -331,7 +331,7 @@ def name_rejection(case, r, run, v):
             what += "; the fail-safe pass ends in %s(%r) caused by %s in %s" % (e["outer"], e["outer_msg"], e["cls"], e["frame"])
         else:
             what += "; the writer falls back to its fail-safe second pass"
-        return [(key, what)]
+        return [(key + " | " + kind, what)]
     if s == "Raise":
         e = r["exc"]
         return [("%s %s %s | %s" % (fam, e["cls"], e["frame"], kind),
